@@ -98,7 +98,9 @@ def capture_part(model_name, fcn, amp, x, batch, want_hess=True):
     p.g, p.Jg, p.Hg = capture_derivs(amp, fcn.mcdata, var)
     n, m = len(p.W), len(p.V)
     if model_name in CFIT_LIKE:
-        p.e = np.array(arr(fcn.data.get("eff_value", np.ones(n))) if model_name != "simple_cfit" else arr(fcn.data.get("err_value", np.ones(n))))
+        # simple_cfit reads the data-side efficiency "eff_value" like the other cfit models (after fix_C06/patch_4; the old code read the
+        # misspelled key "err_value", i.e. efficiency 1 on the data side)
+        p.e = np.array(arr(fcn.data.get("eff_value", np.ones(n))))
         p.b = np.array(arr(fcn.data.get("bg_value", np.ones(n))))
         p.eg = np.array(arr(fcn.mcdata.get("eff_value", np.ones(m)))); p.bm = np.array(arr(fcn.mcdata.get("bg_value", np.ones(m))))
     nll, g = fcn.get_nll_grad(x)
@@ -502,15 +504,17 @@ def lowdens_cases(ctx, rnd, s):
     fcn = cfg.get_fcn(batch=b0)
     names = list(cfg.vm.trainable_vars)
     K = len(names)
-    assert set(x) == set(names)
     fixed = {}
     cfg.vm.set_all(x)
     if s.model not in CFIT_LIKE:
-        # all couplings (the fixed reference one too) are scaled by a common factor such that the MEDIAN event density
-        # is 1e-6: about half of the events are below the clip threshold, half above
+        # all couplings (the fixed reference one too) are scaled by a common factor such that the clip threshold 1e-6 falls
+        # into the widest gap of the sorted event densities (geometric middle): some events below, some above, none at
+        # the threshold itself (clip_log is only C^2 there: finite differences of the gradient need a smooth neighbourhood)
         fixed = {n: float(cfg.vm.get(n)) for n in cfg.vm.variables if n.endswith("_total_0r") and n not in names}
-        med = float(np.median(np.array(amp(fcn.data), dtype=np.float64)))
-        sc = math.sqrt(1e-6 / med)
+        ds = np.sort(np.array(amp(fcn.data), dtype=np.float64))
+        i = 1 + int(np.argmax(ds[1:] / ds[:-1]))
+        sc = math.sqrt(1e-6 / math.sqrt(float(ds[i - 1] * ds[i])))
+        ctx.count("lowdens:gap around the threshold %s" % ("> 10%" if ds[i] / ds[i - 1] > 1.1 else "<= 10%"))
         fixed = {n: v * sc for n, v in fixed.items()}
         x = {n: (v * sc if n.endswith("_total_0r") else v) for n, v in x.items()}
         for n, v in fixed.items():
@@ -555,14 +559,14 @@ def lowdens_cases(ctx, rnd, s):
     out.append(arith(tag + "_TVH", Rq(v_h), v_call, vt, meta("value", "FCN.nll_grad_hessian value vs __call__ (density below the clip threshold)", case_info=info)))
     out.append(arith(tag + "_BV", Rq(v_b), v_g, vt, meta("value", "nll_grad value (batch independence, low density)")))
     # finite differences of the implementation's own stand-alone value / gradient (Richardson, error O(h^4))
-    g_fd = richardson_grad(fv, xl)
-    h_fd = np.array([richardson_grad(lambda xx, k=k: gv(xx)[k], xl) for k in range(K)])
+    g_fd = richardson_grad(fv, xl, rel=True)
+    h_fd = np.array([richardson_grad(lambda xx, k=k: gv(xx)[k], xl, rel=True) for k in range(K)])
     cfg.vm.set_all(x)
     ctx.evaluations += 4 * K * (K + 1)
     gsc = float(np.max(np.abs(g))) + 1.0
     hsc = float(np.max(np.abs(h))) + 1.0
     for k in range(K):
-        out.append(arith(tag + "_FG%d" % k, Rq(float(g[k])), float(g_fd[k]), 2e-6 * gsc,
+        out.append(arith(tag + "_FG%d" % k, Rq(float(g[k])), float(g_fd[k]), 1e-7 * gsc,
                          meta("gradient", "FCN.nll_grad gradient vs finite differences of __call__ (low density)", param=names[k], case_info=info)))
         out.append(arith(tag + "_GH%d" % k, Rq(float(g_h[k])), float(g[k]), ATOL + RTOL * gsc, meta("gradient", "nll_grad_hessian gradient vs nll_grad gradient (low density)", param=names[k])))
         out.append(arith(tag + "_PG%d" % k, Rq(float(g_p[k])), float(g[k]), ATOL + RTOL * gsc, meta("gradient", "grad_hessp gradient vs nll_grad gradient (low density)", param=names[k])))
@@ -570,7 +574,7 @@ def lowdens_cases(ctx, rnd, s):
         out.append(arith(tag + "_P%d" % k, "row_dot %s %s" % (Rlist(h[k]), Rlist(pvec)), float(hp[k]), ATOL + 10 * RTOL * (float(np.sum(np.abs(h[k] * pvec))) + hsc * 1e-3),
                          meta("hessp", "FCN.grad_hessp (low density)", param=names[k])))
         for l in range(K):
-            out.append(arith(tag + "_FH%d_%d" % (k, l), Rq(float(h[k][l])), float(h_fd[k][l]), 2e-5 * hsc,
+            out.append(arith(tag + "_FH%d_%d" % (k, l), Rq(float(h[k][l])), float(h_fd[k][l]), 1e-6 * hsc,
                              meta("hessian", "FCN.nll_grad_hessian vs finite differences of the nll_grad gradient (low density)", param=(names[k], names[l]))))
     ctx.distinct.add((s.sid, "lowdens"))
     return out
@@ -719,14 +723,17 @@ def _worker(args):
 
 # ----------------------------------------------------------------------------- search on break
 
-def richardson_grad(fun, x, h=2e-4):
+def richardson_grad(fun, x, h=2e-4, rel=False):
+    """rel: step h * min(1, |x_k|) (parameters much smaller than the step, e.g. scaled-down couplings)"""
     x = np.array(x, dtype=np.float64)
     g = np.zeros(len(x))
     for k in range(len(x)):
+        hk = h * min(1.0, abs(float(x[k]))) if (rel and x[k] != 0) else h
+
         def d(hh):
             e = np.zeros(len(x)); e[k] = hh
             return (fun(x + e) - fun(x - e)) / (2 * hh)
-        g[k] = (4 * d(h / 2) - d(h)) / 3
+        g[k] = (4 * d(hk / 2) - d(hk)) / 3
     return g
 
 
